@@ -88,6 +88,8 @@ C02_BlockGranular(o) ==
 (***************************************************************************)
 C03_Faithful(o) == o.alien = 0
 C03_IndependentOfMutation(o) == SameBag(o.res, o.res2)
+\* appending to the arrays of returned rows (through their spare capacity) changed no returned row
+C03_RowsShareNothing(o) == o.shared = 0
 C03_ConcurrentAgree(o) == \A k \in 1..Len(o.conc) : SameBag(o.res, o.conc[k])
 
 (***************************************************************************)
@@ -199,18 +201,21 @@ EvalWith(e, ans, k) ==
                     Fold(i + 1, IF e.t = "and" THEN acc /\ r[1] ELSE acc \/ r[1], r[2])
          IN Fold(1, e.t = "and", k)
     [] OTHER -> << FALSE, k >>
+\* (a block the store could not hand back under its own metadata has no recorded answers: nothing to judge here;
+\*  C17 / C11 report it)
 FiltersPass(o, ans) ==
   LET r1 == EvalWith(Q(o).bloom, ans, 1)
       r2 == EvalWith(Q(o).regex, ans, r1[2])
   IN r1[1] /\ r2[1]
 NoConditions(o) == Q(o).bloom.t = "nil" /\ Q(o).regex.t = "nil"
+Unreadable(o, b) == Blk(o, b).alien >= 1000
 C24_NoOpenOfRuledOutFile(o) ==
   \A f \in 1..Len(o.files) : o.files[f].opened > 0 =>
       /\ \E b \in FileBlocks(o, f) : b \in SUpper(o)
-      /\ NoConditions(o) \/ \E b \in FileBlocks(o, f) : FiltersPass(o, Blk(o, b).fa)
+      /\ NoConditions(o) \/ \E b \in FileBlocks(o, f) : Unreadable(o, b) \/ FiltersPass(o, Blk(o, b).fa)
 C24_NoRowReadOfRuledOutBlock(o) ==
   \A b \in 1..NB(o) : Blk(o, b).rowread =>
-      (b \in SUpper(o) /\ (NoConditions(o) \/ FiltersPass(o, Blk(o, b).ba)))
+      (b \in SUpper(o) /\ (NoConditions(o) \/ Unreadable(o, b) \/ FiltersPass(o, Blk(o, b).ba)))
 C24_NoRegionReadWithoutConditions(o) == NoConditions(o) => \A f \in 1..Len(o.files) : ~o.files[f].regionread
 C24_ReadsInsideDeclaredExtents(o) == \A f \in 1..Len(o.files) : o.files[f].oob = 0
 
@@ -223,7 +228,7 @@ Props(o) ==
   [ C01_NoFalseNegative |-> C01_NoFalseNegative(o), C01_QuerySucceeds |-> C01_QuerySucceeds(o),
     C02_OnlyMatching |-> C02_OnlyMatching(o), C02_AtMostStored |-> C02_AtMostStored(o),
     C02_ExactWithoutPrefilter |-> C02_ExactWithoutPrefilter(o), C02_BlockGranular |-> C02_BlockGranular(o),
-    C03_Faithful |-> C03_Faithful(o), C03_IndependentOfMutation |-> C03_IndependentOfMutation(o),
+    C03_Faithful |-> C03_Faithful(o), C03_IndependentOfMutation |-> C03_IndependentOfMutation(o), C03_RowsShareNothing |-> C03_RowsShareNothing(o),
     C03_ConcurrentAgree |-> C03_ConcurrentAgree(o),
     C11_BagUnchanged |-> C11_BagUnchanged(o), C11_AnswersPreserved |-> C11_AnswersPreserved(o),
     C11_MergeSucceeds |-> C11_MergeSucceeds(o),
